@@ -1,14 +1,13 @@
 (* Theorems about the OrefaFS model (statements to be restated in Properties/C05.v, C07.v).
 
    C05_orefa_init          the initial file system satisfies the invariant
-   C05_orefa_step_partial  every call preserves it - all calls, successful or failed, any user and umask;
-                           PARTIAL: for RemoveAll only when the target is a file or an empty directory
-                           (the recursive removal of a non-empty directory is not proved)
-   C05_orefa_reach_partial hence every state reachable by a history whose RemoveAll calls are of that kind
+   C05_orefa_step          every call preserves it - all calls (RemoveAll of whole subtrees included, OrefaRmAll.v),
+                           successful or failed, any arguments, any user and umask
+   C05_orefa_reach         hence every state reachable by any history of calls from the initial world
    C05_orefa_index_function, C05_orefa_keys_clean, C05_orefa_parent_dir, C05_orefa_nlink, C05_orefa_walk (I7),
    C05_orefa_dir_one_path  what the invariant says, in the words of the property. *)
 From Avfs Require Import Base PathModel PathSpec PathProofs PathCleanProofs PathIterProofs MemFS MemFile World
-  OrefaFS OrefaWorld OrefaLemmas OrefaInv.
+  OrefaFS OrefaWorld OrefaLemmas OrefaInv OrefaRmAll.
 
 (* ---- the initial state ------------------------------------------------------------------------------- *)
 Lemma hinv_empty_root m : has (m_mode m) MODE_DIR = true ->
@@ -51,13 +50,9 @@ Proof.
 Qed.
 
 (* ---- every call ---------------------------------------------------------------------------------------- *)
-Definition ra_ok (s : ofs) (c : call) : Prop :=
-  match c with CRemoveAll _ p => ra_leaf s p | _ => True end.
-
-Theorem C05_orefa_step_partial : forall w c,
-  orefa_inv (ow_fs w) -> ra_ok (ow_fs w) c -> orefa_inv (ow_fs (fst (ostep w c))).
+Theorem C05_orefa_step : forall w c, orefa_inv (ow_fs w) -> orefa_inv (ow_fs (fst (ostep w c))).
 Proof.
-  intros w c Hinv Hra. unfold ostep, o_on_view, o_on_handle, olift.
+  intros w c Hinv. unfold ostep, o_on_view, o_on_handle, olift.
   destruct c; try (destruct vi; [|exact Hinv]); try (destruct (nth_error (ow_handles w) hi) as [f|]; [|exact Hinv]);
     cbn [fst ow_fs ow_with_fs]; try exact Hinv.
   - apply step_mkdir; exact Hinv.
@@ -65,7 +60,7 @@ Proof.
   - pose proof (step_open_file (ow_fs w) p flag perm Hinv) as H.
     destruct (o_open_file (ow_fs w) p flag perm) as [s1 [r|f]]; exact H.
   - apply step_remove; exact Hinv.
-  - apply step_remove_all_leaf; [exact Hinv|exact Hra].
+  - apply step_remove_all; exact Hinv.
   - apply step_rename; exact Hinv.
   - apply step_link; exact Hinv.
   - apply step_truncate; exact Hinv.
@@ -89,13 +84,6 @@ Proof.
   - destruct (of_readdirnames (ow_fs w) f n) as [f' r]. exact Hinv.
 Qed.
 
-(* histories whose RemoveAll calls remove a file or an empty directory *)
-Fixpoint ra_ok_run (w : oworld) (cs : list call) : Prop :=
-  match cs with
-  | [] => True
-  | c :: r => ra_ok (ow_fs w) c /\ ra_ok_run (fst (ostep w c)) r
-  end.
-
 Lemma orun_fst w : forall cs, fst (orun w cs) = fold_left (fun w c => fst (ostep w c)) cs w.
 Proof.
   intros cs. revert w. induction cs as [|c r IH]; intros w; cbn [orun fold_left]; [reflexivity|].
@@ -103,13 +91,12 @@ Proof.
   rewrite IH. reflexivity.
 Qed.
 
-Theorem C05_orefa_reach_partial : forall um cs,
-  ra_ok_run (o_init_world_linux um) cs -> orefa_inv (ow_fs (fst (orun (o_init_world_linux um) cs))).
+Theorem C05_orefa_reach : forall um cs, orefa_inv (ow_fs (fst (orun (o_init_world_linux um) cs))).
 Proof.
   intros um cs. rewrite orun_fst.
   assert (H : orefa_inv (ow_fs (o_init_world_linux um))) by apply C05_orefa_init.
-  revert H. generalize (o_init_world_linux um). induction cs as [|c r IH]; intros w Hinv Hra; cbn [fold_left]; [exact Hinv|].
-  destruct Hra as [H1 H2]. apply IH; [apply C05_orefa_step_partial; assumption|exact H2].
+  revert H. generalize (o_init_world_linux um). induction cs as [|c r IH]; intros w Hinv; cbn [fold_left]; [exact Hinv|].
+  apply IH. apply C05_orefa_step. exact Hinv.
 Qed.
 
 (* ---- what the invariant says ------------------------------------------------------------------------------ *)
@@ -200,8 +187,7 @@ Example C05_orefa_example :
   let a := [97%N] in let b := [98%N] in let c := [99%N] in let d := [100%N] in
   let cs := [CMkdirAll 0 (abs_path [a; b]) 493; CWriteFile 0 (abs_path [a; b; c]) [120%N] 420;
              CLink 0 (abs_path [a; b; c]) (abs_path [a; d])] in
-  ra_ok_run (o_init_world_linux 18) cs
-  /\ snd (orun (o_init_world_linux 18) cs) = [ROk; ROk; ROk]
+  snd (orun (o_init_world_linux 18) cs) = [ROk; ROk; ROk]
   /\ o_stat (ow_fs (fst (orun (o_init_world_linux 18) cs))) (abs_path [a; d])
      = RInfo {| fi_name := d; fi_size := 1; fi_mode := 420; fi_uid := 0; fi_gid := 0; fi_nlink := 2; fi_id := 6 |}.
-Proof. vm_compute. repeat split. Qed.
+Proof. vm_compute. split; reflexivity. Qed.
